@@ -118,4 +118,6 @@ def check(out, ctx):
                            "cases of grammars with @memoize rules; inputs biased to failing parses; non-trivial = at least one cache hit; distinct by (grammar, rule, input)",
                            lambda c: "I:0" in c.impl.get("trace", ""),
                            {"memoized_body_evaluations_counted": total_evals, "failing_parses_with_cache_hit": failing_cached, "cases_with_single_probe_oracle": probed, "long_runs": long_runs, "long_run_evaluations_counted": long_evals,
+                            "memo_grammars_that_are_instances_of_C06_at_most_once": sum(1 for g in st["grammars"] if g.meta["memo"] and not g.meta["leftrec"] and getattr(g, "wf", None) is True),
+                            "memo_grammars": sum(1 for g in st["grammars"] if g.meta["memo"]),
                             "model_vs_implementation_disagreements": bad})
